@@ -300,7 +300,16 @@ def _main_check(ctx: Ctx) -> None:
     sync = [s for s in ast.walk(loop) if isinstance(s, ast.Assign) and isinstance(s.value, ast.Constant) and isinstance(s.value.value, bool)
             and isinstance(s.targets[0], ast.Name) and s.targets[0].id in {n.id for n in ast.walk(loop.test) if isinstance(n, ast.Name)}]
     setf = [s for s in sync if s.value.value is False]
-    ok = bool(setf) and all(any(isinstance(a, ast.If) and "len(" in src(a.test) and "> 1" in src(a.test) for a in ancestors(s)) for s in setf)
+    def _two_or_more(t):
+        """does the test hold exactly when a list has two or more elements?  (`len(x) > 1`, `len(x) >= 2`, `1 < len(x)` ...)"""
+        if isinstance(t, ast.Compare) and len(t.ops) == 1:
+            l, r, op = t.left, t.comparators[0], type(t.ops[0])
+            if isinstance(r, ast.Call) and getattr(r.func, "id", None) == "len" and isinstance(l, ast.Constant):
+                l, r, op = r, l, {ast.Lt: ast.Gt, ast.LtE: ast.GtE, ast.Gt: ast.Lt, ast.GtE: ast.LtE}.get(op, op)
+            if isinstance(l, ast.Call) and getattr(l.func, "id", None) == "len" and isinstance(r, ast.Constant) and isinstance(r.value, int):
+                return (op is ast.Gt and r.value == 1) or (op is ast.GtE and r.value == 2) or (op is ast.NotEq and False)
+        return False
+    ok = bool(setf) and all(any(isinstance(a, ast.If) and _two_or_more(a.test) and any(s is x for y in a.body for x in ast.walk(y)) for a in ancestors(s)) for s in setf)
     ctx.check(ok, "PLACEHOLDER", f"{FN}: another round runs iff some track still has a remainder", function=FN,
               construct="loop continuation flag is not tied to `a remainder exists`", message="", file=fi.file, node=loop)
 
